@@ -159,6 +159,39 @@ def runWith (storeKey : List Tok → Style → Key) : ACache → List (List Tok 
 
 def run := runWith storeKeyNow
 
+/-! ### `raw_sql()` inside a query: the translator cache
+
+A query is translated once per cache key and the translator keeps, for every `$`-parameter of a `raw_sql()` fragment, the
+converter chosen for the Python type the parameter had at translation time (`RawSQLMonad.getsql`:
+`provider.get_converter_by_py_type(param_type)`).  The fragment enters the key as a `RawSQLType`, whose `__eq__` /
+`__hash__` compare `sql` AND `types`.  The model: a run is (fragment, parameter types); a translator is the list of
+types its converters were chosen for; the answer of a run is the list of converters its values are bound through. -/
+
+inductive PyType where
+  | int | str | decimal | uuid | datetime | date | bool | float | none
+  deriving DecidableEq, Repr
+
+abbrev QKey := List Tok × List PyType
+
+/-- `RawSQLType.__eq__` as coded: `self.sql == other.sql and self.types == other.types` -/
+def qkeyAsCoded (toks : List Tok) (types : List PyType) : QKey := (toks, types)
+/-- a key that forgets the parameter types (NOT the code; used to show the theorem is sensitive) -/
+def qkeyWithoutTypes (toks : List Tok) (_ : List PyType) : QKey := (toks, [])
+
+/-- one execution of the query: the converters the parameter values are bound through, and the cache afterwards -/
+def queryWith (keyOf : List Tok → List PyType → QKey) (c : List (QKey × List PyType)) (toks : List Tok) (types : List PyType) :
+    List PyType × List (QKey × List PyType) :=
+  match c.lookup (keyOf toks types) with
+  | some conv => (conv, c)                               -- the cached translator with ITS converters
+  | none => (types, (keyOf toks types, types) :: c)      -- translate now: converters for the current types
+
+def runQueries (keyOf : List Tok → List PyType → QKey) :
+    List (QKey × List PyType) → List (List Tok × List PyType) → List (List PyType)
+  | _, [] => []
+  | c, (toks, types) :: rest =>
+    let (r, c1) := queryWith keyOf c toks types
+    r :: runQueries keyOf c1 rest
+
 /-! ### what the DB-API does with the adapted statement (format / pyformat): Python's `sql % args` -/
 
 /-- a character of the final statement: a literal character or a bound value -/
